@@ -219,7 +219,8 @@ def equivariance(ctx, cname, make, perm, measures, n, replay_base):
     net, pnet = make(None), make(perm)
     directed_extra = net.directed
     # grid distances are float32 computations: summation order matters at 1e-7
-    rtol = 1e-7 if cname == "Network" else 2e-5
+    rtol = 1e-7 if cname in ("Network", "RecurrenceNetwork", "JointRecurrenceNetwork",
+                             "InterSystemRecurrenceNetwork") else 2e-5
     for m in measures:
         try:
             v = quiet(getattr(net, m))
@@ -384,6 +385,7 @@ def run(ctx):
                 interacting(ctx, A, w, W, g0, perm, base)
             if not directed and connected and n >= 3 and gi % 3 == 0:
                 resistive(ctx, A, perm, rng, base)
+    timeseries_networks(ctx)
     model = common.driver(ctx.pid, reqs)
     bad_rel, bad_eval, nvals = [], [], 0
     for ans, (kind, gi, perm, impl) in zip(model, meta):
@@ -413,6 +415,69 @@ def run(ctx):
                    f"permuted copies ({nvals} values)", "correspondence", not bad_eval,
                    "\n".join(bad_eval[:8]))
     ctx.extra["values_compared"] = nvals
+
+
+def timeseries_networks(ctx):
+    """recurrence-type networks: renumbering the nodes = reordering the state vectors.  Without
+    time-delay embedding a (joint / inter-system) recurrence network of the reordered states must
+    be the renumbered network, for every network measure (the line-based RQA measures of the
+    underlying plot depend on the time order by definition and are not network measures).
+    Visibility graphs have no renumbering that keeps the criterion except time reversal, which
+    is C14's theorem `time_reversal`."""
+    from pyunicorn.core import Network
+    from pyunicorn.timeseries import (RecurrencePlot, RecurrenceNetwork, JointRecurrenceNetwork,
+                                      InterSystemRecurrenceNetwork, JointRecurrencePlot)
+    rng = ctx.rng
+    quick = ctx.tier == "quick"
+    netm = set(zero_arg_measures(Network))
+
+    def own(cls, *plots):
+        skip = set()
+        for p in plots:
+            skip |= set(dir(p))
+        return [m for m in zero_arg_measures(cls) if m in netm or m not in skip]
+
+    for rep in range(6 if quick else 60):
+        n = rng.randrange(5, 9 if quick else 13)
+        d = rng.choice([1, 2, 3])
+        # half-integer coordinates, thresholds strictly between attainable distances
+        x = np.array([[rng.randrange(0, 9) / 2 for _ in range(d)] for _ in range(n)])
+        y = np.array([[rng.randrange(0, 9) / 2 for _ in range(d)] for _ in range(n)])
+        m = rng.randrange(4, 8)
+        z = np.array([[rng.randrange(0, 9) / 2 for _ in range(d)] for _ in range(m)])
+        metric = rng.choice(["supremum", "manhattan", "euclidean"])
+        thr = rng.choice([0.75, 1.25, 1.75, 2.25]) + (0.1 if metric == "euclidean" else 0.0)
+        perm = list(range(n))
+        rng.shuffle(perm)
+        pz = list(range(m))
+        rng.shuffle(pz)
+        base = {"x": x.tolist(), "metric": metric, "threshold": thr}
+        ctx.case(("ts-net", x.tobytes().hex(), tuple(perm), metric, thr), perm != sorted(perm))
+
+        def mk_rn(p):
+            idx = np.arange(n) if p is None else np.array(p)
+            return RecurrenceNetwork(x[idx], metric=metric, threshold=thr, silence_level=3)
+
+        def mk_jrn(p):
+            idx = np.arange(n) if p is None else np.array(p)
+            return JointRecurrenceNetwork(x[idx], y[idx], metric=(metric, metric),
+                                          threshold=(thr, thr + 0.5), silence_level=3)
+
+        def mk_isrn(p):
+            if p is None:
+                return InterSystemRecurrenceNetwork(x, z, metric=metric,
+                                                    threshold=(thr, thr, thr + 0.5), silence_level=3)
+            return InterSystemRecurrenceNetwork(x[np.array(perm)], z[np.array(pz)], metric=metric,
+                                                threshold=(thr, thr, thr + 0.5), silence_level=3)
+        equivariance(ctx, "RecurrenceNetwork", mk_rn, perm,
+                     own(RecurrenceNetwork, RecurrencePlot), n, dict(base, cls="RecurrenceNetwork"))
+        equivariance(ctx, "JointRecurrenceNetwork", mk_jrn, perm,
+                     own(JointRecurrenceNetwork, RecurrencePlot, JointRecurrencePlot), n,
+                     dict(base, y=y.tolist(), cls="JointRecurrenceNetwork"))
+        full = perm + [n + k for k in pz]
+        equivariance(ctx, "InterSystemRecurrenceNetwork", mk_isrn, full,
+                     own(InterSystemRecurrenceNetwork), n + m,
+                     dict(base, y=z.tolist(), cls="InterSystemRecurrenceNetwork"))
 
 
 def interacting(ctx, A, w, W, g0, perm, base):
